@@ -176,7 +176,9 @@ func checkC08(c *Ctx) {
 			for _, w := range ways {
 				detail += "{" + join(w.Sorted()) + "} "
 			}
-			ok = len(ways) == 1 && hasCmp(ways[0], "<", is("p0."+kTOMsg+"View"), func(k string) bool { return strings.Contains(k, "currentView") || k == "fv:currentView" || k == "*fv:currentView" })
+			ok = len(ways) == 1 && hasCmp(ways[0], "<", is("p0."+kTOMsg+"View"), func(k string) bool {
+				return strings.Contains(k, "currentView") || k == "fv:currentView" || k == "*fv:currentView"
+			})
 		})
 		c.Check(ok, "C08.6", "deleteOldViews: removes exactly t.View < currentView", p.FuncPos(dov),
 			"DeleteFunc predicate is t.View < currentView (timeouts of the current and future views are kept)", detail)
